@@ -244,6 +244,11 @@ def _c03(P, name, decl, rng):
     data = bytes(w.to_bytearray()) if out == "ok" else b""
     n = 0
     cands = [data[:c] for c in range(len(data) + 1)]
+    # a break byte at every position (inserted, substituted): what chunked reading is sensitive to
+    for j in range(min(len(data), 24) + 1):
+        cands.append(data[:j] + b"\xff" + data[j:])
+        if j < len(data):
+            cands.append(data[:j] + b"\xff" + data[j + 1:])
     for _ in range(6):
         if data:
             b = bytearray(data)
